@@ -613,6 +613,7 @@ pub fn supervise(prop: &dyn Property, tier: Tier, seed: u64) -> i32 {
                 .iter()
                 .map(|f| {
                     std::process::Command::new(&exe)
+                        .env("VERIF_SUPERVISED", "1")
                         .args(["replay", "--file", f.to_str().unwrap()])
                         .stdout(std::process::Stdio::null())
                         .stderr(std::process::Stdio::null())
@@ -698,6 +699,7 @@ pub fn supervise(prop: &dyn Property, tier: Tier, seed: u64) -> i32 {
                     };
                     // confirm
                     let st = std::process::Command::new(&exe)
+                        .env("VERIF_SUPERVISED", "1")
                         .args(["replay", "--file", path.to_str().unwrap()])
                         .stdout(std::process::Stdio::null())
                         .stderr(std::process::Stdio::null())
@@ -754,7 +756,8 @@ pub fn supervise(prop: &dyn Property, tier: Tier, seed: u64) -> i32 {
                 let msg = j["result"]["msg"].as_str().unwrap_or("").to_string();
                 // confirm through the plain replay path
                 let st = std::process::Command::new(&exe)
-                    .args(["replay", "--file", &path])
+                    .env("VERIF_SUPERVISED", "1")
+                        .args(["replay", "--file", &path])
                     .stdout(std::process::Stdio::null())
                     .stderr(std::process::Stdio::null())
                     .status()
